@@ -536,6 +536,13 @@ SUBS = [
 
 KNOWN_PREDICATES = {}
 
+# thorough tier: coverage-guided campaigns (atheris/libFuzzer mutating the bytes Hypothesis draws from)
+FUZZ = {
+    "subs": ['sequence', 'alignment', 'strided'],
+    "targets": ['cogent3.core.sequence', 'cogent3.core.alignment', 'cogent3.core.annotation', 'cogent3.core.annotation_db', 'cogent3.core.location'],
+    "execs_thorough": 40_000, "jobs_thorough": 4, "execs_quick": 1000, "jobs_quick": 2,
+}
+
 META = {
     "technique": "Hypothesis-generated features, view histories and query windows against an index-set model of features and views (sequence and alignment level)",
     "level_text": "Thousands of generated cases per run place single- and multi-span features of either strand on old- and new-style sequences (with and without an annotation offset) and on gapped alignments, apply slice/rc/copy histories, and compare every feature returned by window queries, its residues and its coordinates with a model that works on plain parent indices; projections through gapped rows are compared column by column.",
